@@ -173,8 +173,31 @@ func (fc *FuncCtx) lookupSpecName(st *State, name string, sc *specCtx) (Val, boo
 				return Val{Pkg: imp}, true
 			}
 		}
+		// a package that is not imported directly: search the import graph (contracts may name helpers of
+		// packages their own package only depends on indirectly)
+		if p := findPkgByName(sc.pkg, name, 4, map[*types.Package]bool{}); p != nil {
+			return Val{Pkg: p}, true
+		}
 	}
 	return Val{}, false
+}
+
+func findPkgByName(root *types.Package, name string, depth int, seen map[*types.Package]bool) *types.Package {
+	if root == nil || depth < 0 || seen[root] {
+		return nil
+	}
+	seen[root] = true
+	for _, imp := range root.Imports() {
+		if imp.Name() == name && strings.Contains(imp.Path(), "bron-crypto") {
+			return imp
+		}
+	}
+	for _, imp := range root.Imports() {
+		if p := findPkgByName(imp, name, depth-1, seen); p != nil {
+			return p
+		}
+	}
+	return nil
 }
 
 func (fc *FuncCtx) objVal(st *State, obj types.Object) Val {
